@@ -223,8 +223,9 @@ def import_trigger(oc: dict, exc: BaseException, module: list, pkg: "cd.Package"
     if not isinstance(exc, NameError):
         return "none"
     if oc["opts"].get("reuse_model") and oc["opts"].get("collapse_root_models") and raised_in_empty_subclass_of(exc, pkg, getattr(exc, "name", None)):
-        # C09-F4 (root cause: C11-reuse-collapse-root): the second of two identical root models became `class B(A): pass`
-        # (--reuse-model), then --collapse-root-models folded every use of A and removed A
+        # the second of two identical root models became `class B(A): pass` (--reuse-model) and A is defined nowhere: what
+        # --collapse-root-models did before it kept a root that is still a base class (former known finding C09-F4, repaired:
+        # a failure classified so is a VIOLATION; its witnesses are CORPUS cases)
         return "reused_root_subclass_of_collapsed_root"
     if member_written_in(oc, module):
         return "dotted_name_defining_module"  # C09-F1
@@ -434,13 +435,9 @@ def gen_ocase(rng: Rng, *, okind: str | None = None, combo: dict | None = None, 
     # belong to C12/C02, see the report): the dotted layout keeps to one copy under --reuse-model, to non-nullable enums
     # under --collapse-root-models, and to alias definitions outside the module of their enum
     copies = 1 if dotted and opts.get("reuse_model") else rng.choice([1, 2, 2, 3])
-    # known finding C09-F4 stops the import whenever two root models render alike under both options: look past it most of the time
-    calm = bool(opts.get("reuse_model") and opts.get("collapse_root_models")) and rng.chance(3, 4)
-    nullable_named = 0
     named = 0
     for i in range(copies):
-        nullable = rng.chance(1, 4) and ty == "string" and not (dotted and opts.get("collapse_root_models")) and not (calm and nullable_named)
-        nullable_named += int(nullable)
+        nullable = rng.chance(1, 4) and ty == "string" and not (dotted and opts.get("collapse_root_models"))
         v = [*vals, None] if nullable else list(vals)
         if rng.chance(1, 2) or dotted:
             n = names.pop(0)
@@ -471,8 +468,6 @@ def gen_ocase(rng: Rng, *, okind: str | None = None, combo: dict | None = None, 
             if not anames:
                 break
             tgt = rng.choice(enum_defs)
-            if calm and any(d["is"] == "alias" and d["target"] == tgt["name"] for d in defs):
-                continue
             a: dict[str, Any] = {"name": anames.pop(0), "module": alias_mod, "is": "alias", "target": tgt["name"]}
             if rng.chance(1, 2):
                 a["default"] = rng.choice(non_null(tgt))
@@ -613,6 +608,19 @@ CORPUS: list[dict] = [
      "fields": [{"name": "first", "shape": "scalar", "to": {"def": "Shade"}, "wrap": "ref"},
                 {"name": "second", "shape": "list", "to": {"def": "Shade"}, "wrap": "ref", "default": ["red", "green"]},
                 {"name": "third", "shape": "scalar", "to": {"def": "Colour"}, "wrap": "allOf", "default": "red"}]},
+    # former witnesses of C09-F4 (repaired: __collapse_root_models keeps a root model that is the base class of the `class Tone(Shade): pass`
+    # written by __reuse_model): two root models that render alike and are both used, under both options, with and without the conversion,
+    # pydantic v2 and v1 — (a) two alias definitions of one enum, (b) two string enums with a null entry and the same entries
+    *[{"okind": "single", "model": model, "opts": {"set_default_enum_member": sdem, "reuse_model": True, "collapse_root_models": True},
+       "defs": defs, "holder": {"name": "Holder", "module": [], "at": "root", "pos": 9},
+       "fields": [{"name": "first", "shape": "scalar", "to": {"def": a}, "wrap": "ref", "default": "q"},
+                  {"name": "second", "shape": "scalar", "to": {"def": b}, "wrap": "ref", "default": "p"}]}
+      for model in ("pydantic_v2.BaseModel", "pydantic.BaseModel") for sdem in (True, False)
+      for a, b, defs in (("Shade", "Tone", [{"name": "Colour", "module": [], "is": "enum", "type": "string", "values": ["p", "q"]},
+                                            {"name": "Shade", "module": [], "is": "alias", "target": "Colour"},
+                                            {"name": "Tone", "module": [], "is": "alias", "target": "Colour"}]),
+                         ("Colour", "Tint", [{"name": "Colour", "module": [], "is": "enum", "type": "string", "values": ["p", "q", None]},
+                                             {"name": "Tint", "module": [], "is": "enum", "type": "string", "values": ["p", "q", None]}]))],
 ]
 
 
